@@ -10,7 +10,7 @@ use std::os::unix::fs::MetadataExt;
 
 pub static DEF: PropDef = PropDef {
     id: "C16",
-    rule: "format strings from the statement's grammar: literal text (ASCII and multi-byte; no '%' or backslash), escapes \\a \\b \\f \\n \\r \\t \\v \\\\ \\0 \\NNN (three octal digits, 001-177), '%%', directives p f h H P d s n i U G m y Y l with optional '-' flag and width 0-40, 1-8 components; rendered by find in process on a tree that holds every creatable type (regular files with sizes and 12-bit modes incl. setuid/setgid/sticky, directories two levels deep, fifo, socket, hard link, links to file / directory / nothing / themselves, foreign owners) under starting points spelled c/d, ./c/d, c/d/, c/d//, ./c/d/., c/d/../d, absolute, c//d, '.', a link to a directory as such and with a trailing '/' or '/.', 1 case in 4 with -depth, under -P/-H/-L, through -printf (stdout) or -fprintf (file). Exhaustive sub-run: every format of <= 2 (thorough 3) components over a 31-component alphabet. Oracle: an independent renderer fed by lstat/stat/readlink as the follow mode prescribes and by the reference walker's path strings; the output must equal the concatenation over the visit order, byte for byte. Identities checked on dedicated runs: %p == the -print path; %H == the starting point as given and %H + '/' + %P == %p below it; %y / %Y letters agree with which -type / -xtype selects the entry. Non-trivial = the format has >= 2 directives, one with a width, and some visited entry is a link or lies below a starting point not spelled as a plain name. Distinct = distinct case JSON.",
+    rule: "format strings from the statement's grammar: literal text (ASCII and multi-byte; no '%' or backslash), escapes \\a \\b \\f \\n \\r \\t \\v \\\\ \\0 \\NNN (three octal digits, 001-377: the byte with that value), '%%', directives p f h H P d s n i U G m y Y l with optional '-' flag and width 0-40, 1-8 components; rendered by find in process on a tree that holds every creatable type (regular files with sizes and 12-bit modes incl. setuid/setgid/sticky, directories two levels deep, fifo, socket, hard link, links to file / directory / nothing / themselves, foreign owners) under starting points spelled c/d, ./c/d, c/d/, c/d//, ./c/d/., c/d/../d, absolute, c//d, '.', a link to a directory as such and with a trailing '/' or '/.', 1 case in 4 with -depth, under -P/-H/-L, through -printf (stdout) or -fprintf (file). Exhaustive sub-run: every format of <= 2 (thorough 3) components over a 32-component alphabet. Oracle: an independent renderer fed by lstat/stat/readlink as the follow mode prescribes and by the reference walker's path strings; the output must equal the concatenation over the visit order, byte for byte. Identities checked on dedicated runs: %p == the -print path; %H == the starting point as given and %H + '/' + %P == %p below it; %y / %Y letters agree with which -type / -xtype selects the entry. Non-trivial = the format has >= 2 directives, one with a width, and some visited entry is a link or lies below a starting point not spelled as a plain name. Distinct = distinct case JSON.",
     assumptions: &[
         "width/padding is asserted on values that are ASCII (entry names in the tree are ASCII; multi-byte text appears as literal text only)",
         "modes always have an owner permission bit so that %m has no leading zero whose printing the statement leaves open",
@@ -431,7 +431,7 @@ fn gen_comp(g: &mut Gen, prev_was_nul_escape: bool) -> Comp {
         }
         1 => {
             let ch = g.pick(&['a', 'b', 'f', 'n', 'r', 't', 'v', '\\', '0', 'o', 'o']);
-            Comp::Esc(ch, if ch == 'o' { g.range(1, 0o177) as u8 } else { 0 })
+            Comp::Esc(ch, if ch == 'o' { if g.bool() { g.range(1, 0o177) as u8 } else { g.range(0o200, 0o377) as u8 } } else { 0 })
         }
         2 => Comp::Pct,
         _ => {
@@ -454,7 +454,7 @@ pub fn gen_case(g: &mut Gen) -> Case {
 }
 
 fn alphabet() -> Vec<Comp> {
-    let mut v = vec![Comp::Lit("a ".into()), Comp::Lit("é".into()), Comp::Pct, Comp::Esc('n', 0), Comp::Esc('0', 0), Comp::Esc('\\', 0), Comp::Esc('t', 0), Comp::Esc('o', 0o101)];
+    let mut v = vec![Comp::Lit("a ".into()), Comp::Lit("é".into()), Comp::Pct, Comp::Esc('n', 0), Comp::Esc('0', 0), Comp::Esc('\\', 0), Comp::Esc('t', 0), Comp::Esc('o', 0o101), Comp::Esc('o', 0o351)];
     for l in LETTERS {
         v.push(Comp::Dir { letter: *l, left: false, width: None });
     }
